@@ -1676,6 +1676,17 @@ impl SctpInner {
         let _inbound_streams = buf.get_u16();
         let initial_tsn = buf.get_u32();
 
+        // A retransmitted or late duplicate of the INIT we already answered (same
+        // initiate tag). The peer may already be using the tag and initial TSN of our
+        // first INIT ACK, so they must not be re-rolled: once established the
+        // duplicate is ignored, before that the same INIT ACK is sent again.
+        let local_tag_in_use = self.verification_tag.load(Ordering::SeqCst);
+        let retransmitted_init = local_tag_in_use != 0
+            && self.remote_verification_tag.load(Ordering::SeqCst) == initiate_tag;
+        if retransmitted_init && *self.state.lock() == SctpState::Connected {
+            return Ok(());
+        }
+
         self.peer_rwnd.store(a_rwnd, Ordering::SeqCst);
         let init_ssthresh = (a_rwnd as usize).max(SSTHRESH_MIN);
         self.ssthresh.store(init_ssthresh, Ordering::SeqCst);
@@ -1685,7 +1696,11 @@ impl SctpInner {
             .store(initial_tsn.wrapping_sub(1), Ordering::SeqCst);
 
         // Generate local tag
-        let local_tag = random_u32();
+        let local_tag = if retransmitted_init {
+            local_tag_in_use
+        } else {
+            random_u32()
+        };
         self.verification_tag.store(local_tag, Ordering::SeqCst);
 
         // Generate HMAC-protected state cookie
@@ -1701,7 +1716,11 @@ impl SctpInner {
         // Inbound streams
         init_ack_params.put_u16(10);
         // Initial TSN
-        let initial_tsn = random_u32();
+        let initial_tsn = if retransmitted_init {
+            self.next_tsn.load(Ordering::SeqCst)
+        } else {
+            random_u32()
+        };
         self.next_tsn.store(initial_tsn, Ordering::SeqCst);
         init_ack_params.put_u32(initial_tsn);
 
